@@ -42,8 +42,9 @@ def _setup(c):
 
 def _points(c, k=1):
     xs, ys = [c.real("x0", sample=(-2, 2)), c.real("x1", sample=(-2, 2))], [c.real("y0", sample=(-2, 2)), c.real("y1", sample=(-2, 2))]
+    zs = [c.real("z0", sample=(-1, 1)), c.real("z1", sample=(-1, 1))]          # detectors need not lie in the z = 0 plane
     A = (lambda v: np.array(v, dtype=object if c.symbolic else float))
-    return xs, ys, (lambda f: detector_points(x=A([f * v for v in xs]), y=A([f * v for v in ys]), z=A([0 * f, 0 * f])))
+    return xs, ys, (lambda f: detector_points(x=A([f * v for v in xs]), y=A([f * v for v in ys]), z=A([f * v for v in zs])))
 
 
 def _scale_contract(coords):
@@ -223,3 +224,22 @@ def detector_grid_scales(c):
     b = c.call(detector_grid, shape, (sx * s, sy * s))
     c.ensures("x", c.eq(b.x.values, a.x.values * s))
     c.ensures("y", c.eq(b.y.values, a.y.values * s))
+
+
+@contract("C04", "integer_pixel_grid", [IF + "ImageFormation._transform_to_desired_coordinates", SI + "calc_holo"],
+          bounded="2x2 grid with integer spacing 1 (integer-typed coordinates) against the same grid in other units", timeout_ms=60000)
+def integer_pixel_grid(c):
+    """a detector given in whole pixels (integer spacing, integer-typed coordinate arrays) and a non-integer particle position
+    gives the same hologram as the same scene expressed in another length unit"""
+    s = c.real("scale", pos=True, sample=(0.05, 0.5))
+    lam = c.real("wavelen", pos=True, sample=(3, 8))
+    n_med = c.real("medium_index", pos=True, sample=(1.0, 1.6))
+    n, r = c.real("n", pos=True, sample=(1.2, 2.0)), c.real("r", pos=True, sample=(2, 6))
+    cen = [c.real("cx", sample=(-1.9, 1.9)), c.real("cy", sample=(-1.9, 1.9)), c.real("cz", sample=(30, 90))]
+    th = AbstractPointTheory(coordinates='cartesian')
+    kw = dict(illum_polarization=(1, 0), theory=th)
+    in_pixels = c.call(calc_holo, detector_grid(2, 1), Sphere(n=n, r=r, center=cen), medium_index=n_med, illum_wavelen=lam, **kw)
+    in_units = c.call(calc_holo, detector_grid(2, s), Sphere(n=n, r=r * s, center=[v * s for v in cen]), medium_index=n_med,
+                      illum_wavelen=lam * s, **kw)
+    c.ensures("kernel-positions-equal", c.eq(th.calls[1]['pos'], th.calls[0]['pos']))
+    c.ensures("hologram-equal", c.eq(in_units.values, in_pixels.values))
